@@ -2,7 +2,16 @@
 
 package webrtc
 
-import "time"
+import (
+	"time"
+
+	"github.com/bluenviron/gortsplib/v5/pkg/description"
+	"github.com/bluenviron/gortsplib/v5/pkg/rtpsender"
+	"github.com/pion/rtcp"
+	"github.com/pion/webrtc/v4"
+
+	"github.com/bluenviron/mediamtx/internal/stream"
+)
 
 // VerifC24MultiplyAndDivide2 exposes multiplyAndDivide2.
 func VerifC24MultiplyAndDivide2(v, m, d time.Duration) time.Duration {
@@ -13,3 +22,43 @@ func VerifC24MultiplyAndDivide2(v, m, d time.Duration) time.Duration {
 func VerifC24TimestampToDuration(t int64, clockRate int) time.Duration {
 	return timestampToDuration(t, clockRate)
 }
+
+// VerifC24PayloadMaxSize is the packet payload limit the audio branches give to their RTP encoders.
+const VerifC24PayloadMaxSize = webrtcPayloadMaxSize
+
+// VerifC24SetupAudioTrack exposes setupAudioTrack (the audio half of FromStream): it registers the real per-unit
+// callback on r.
+func VerifC24SetupAudioTrack(desc *description.Session, r *stream.Reader) (*OutboundTrack, error) {
+	return setupAudioTrack(desc, r)
+}
+
+// VerifC24ProbeTrack gives the track what OutboundTrack.setup would give it, without a peer connection: a local
+// track without bindings (WriteRTP has no receiver) and a RTCP sender that never reports (ClockRate 0) but
+// records the (RTP time, NTP time) pair of the last packet handed to WriteRTPWithNTP.
+func VerifC24ProbeTrack(t *OutboundTrack) error {
+	var err error
+	t.track, err = webrtc.NewTrackLocalStaticRTP(t.Caps, "audio", webrtcStreamID)
+	if err != nil {
+		return err
+	}
+	t.rtcpSender = &rtpsender.Sender{
+		ClockRate:       0,
+		Period:          time.Hour,
+		TimeNow:         func() time.Time { return time.Unix(0, 0) },
+		WritePacketRTCP: func(rtcp.Packet) {},
+	}
+	t.rtcpSender.Initialize()
+	return nil
+}
+
+// VerifC24TrackLast returns the RTP and NTP time of the last packet written to the track and the packet count.
+func VerifC24TrackLast(t *OutboundTrack) (uint32, time.Time, uint64, bool) {
+	st := t.rtcpSender.Stats()
+	if st == nil {
+		return 0, time.Time{}, 0, false
+	}
+	return st.LastRTP, st.LastNTP, st.Sent, true
+}
+
+// VerifC24CloseTrack exposes OutboundTrack.close.
+func VerifC24CloseTrack(t *OutboundTrack) { t.close() }
